@@ -149,6 +149,17 @@ func (e *esdtNFTMultiTransfer) ProcessBuiltinFunction(
 		return nil, fmt.Errorf("%w, invalid number of arguments", ErrInvalidArguments)
 	}
 
+	verifyPayable := mustVerifyPayable(vmInput, int(minNumOfArguments))
+	if verifyPayable {
+		isPayable, errIsPayable := e.payableHandler.IsPayable(vmInput.RecipientAddr)
+		if errIsPayable != nil {
+			return nil, errIsPayable
+		}
+		if !isPayable {
+			return nil, ErrAccountNotPayable
+		}
+	}
+
 	vmOutput := &vmcommon.VMOutput{GasRemaining: vmInput.GasProvided}
 	vmOutput.Logs = make([]*vmcommon.LogEntry, numOfTransfers)
 	startIndex := uint64(1)
